@@ -5,6 +5,7 @@ mod crash;
 mod db;
 mod flock;
 mod image;
+mod seglog;
 mod iohook;
 mod stress;
 mod util;
@@ -45,6 +46,7 @@ fn main() {
         "alloc-freelist" => alloc::run_freelist(seed, cases, &mut sink),
         "alloc-probe" => alloc::run_probe(seed, cases, &mut sink),
         "alloc-lookup" => alloc::run_lookup(seed, cases, &mut sink),
+        "seglog" => seglog::run(seed, cases, &mut sink),
         "core-pp" => core_pp::run(seed, cases, &mut sink),
         "core-mp" => core_mp::run(seed, cases, &mut sink),
         "core-mp-corpus" => {
